@@ -330,9 +330,24 @@ func ruleLiteralTable(c *Ctx) {
 		return
 	}
 	consts := c.P.enumConsts(sqlp, "ValType")
-	atoms := []Atom{{Name: "typ", Dom: int64Dom(sortedKeys(consts)...), Match: func(t *Term) bool {
-		return t.Op == "ext" && t.Name == "0" && t.Args[0].Op == "call" && t.Args[0].Name == "BuildLiteral"
-	}}}
+	lp := paramNameOfType(f, "*sqlparser.Literal")
+	// the literal's kind and text: read through BuildLiteral (whose own obligation follows) or straight from the node
+	isType := func(t *Term) bool {
+		if t.Op == "ext" && t.Name == "0" && t.Args[0].Op == "call" && t.Args[0].Name == "BuildLiteral" {
+			return true
+		}
+		return t.Op == "field" && t.Name == "Type" && t.Args[0].Op == "param" && t.Args[0].Name == lp
+	}
+	isText := func(t *Term) bool {
+		if t == nil {
+			return false
+		}
+		if t.Op == "ext" && t.Name == "1" && t.Args[0].Op == "call" && t.Args[0].Name == "BuildLiteral" && len(t.Args[0].Args) == 1 && t.Args[0].Args[0].Op == "param" && t.Args[0].Args[0].Name == lp {
+			return true
+		}
+		return t.Op == "field" && t.Name == "Val" && t.Args[0].Op == "param" && t.Args[0].Name == lp
+	}
+	atoms := []Atom{{Name: "typ", Dom: int64Dom(sortedKeys(consts)...), Match: isType}}
 	tb := BuildTable(f, atoms, true)
 	if tb.Err != nil {
 		c.Unknown("literal.table", c.P.funcKey(f), c.P.Pos(f.Pos()), tb.Err.Error())
@@ -353,11 +368,17 @@ func ruleLiteralTable(c *Ctx) {
 		verdict := "ok"
 		switch name {
 		case "IntVal", "FloatVal", "DecimalVal":
-			if p.Ret[1].Nil && !(strings.HasPrefix(s, "strconv.ParseFloat(BuildLiteral(") && strings.Contains(s, "#1, c:64)#0")) {
+			okNum := false
+			if x := ext0(p.Ret[0].T); x != nil {
+				if a, isCall := callArgs(x, "strconv.ParseFloat"); isCall && len(a) == 2 && isText(a[0]) && a[1].String() == "c:64" {
+					okNum = true
+				}
+			}
+			if p.Ret[1].Nil && !okNum {
 				verdict = "a numeric literal yields " + s
 			}
 		case "StrVal":
-			if !p.Ret[1].Nil || !(strings.HasPrefix(s, "BuildLiteral(") && strings.HasSuffix(s, "#1")) {
+			if !p.Ret[1].Nil || !isText(p.Ret[0].T) {
 				verdict = "a string literal yields " + s + " (error=" + avString(p.Ret[1]) + ")"
 			}
 		default:
@@ -377,6 +398,34 @@ func ruleLiteralTable(c *Ctx) {
 			}
 			return v
 		}())
+	}
+	// BuildLiteral, when used: hands back the node's own kind and text
+	usesBL := false
+	allInstrs(f, func(_ *ssa.BasicBlock, in ssa.Instruction) {
+		if call, ok := in.(*ssa.Call); ok && call.Common().StaticCallee() != nil && call.Common().StaticCallee().Name() == "BuildLiteral" {
+			usesBL = true
+		}
+	})
+	if bl := c.P.Func(modPath, "BuildLiteral"); usesBL && bl != nil {
+		okBL, why := false, "no success path"
+		paths, err := WalkFunc(bl, WalkCfg{MaxVisits: 1})
+		if err == nil {
+			for _, p := range paths {
+				if p.Exit != "return" || len(p.Ret) != 3 || !p.Ret[2].Nil {
+					continue
+				}
+				node := func(t *Term, field string) bool {
+					return t != nil && t.Op == "field" && t.Name == field && strings.HasPrefix(t.Args[0].String(), "assertok[*sqlparser.Literal](p:") && strings.HasSuffix(t.Args[0].String(), "#0")
+				}
+				if node(p.Ret[0].T, "Type") && node(p.Ret[1].T, "Val") {
+					okBL, why = true, ""
+				} else {
+					okBL, why = false, "BuildLiteral returns ("+avString(p.Ret[0])+", "+avString(p.Ret[1])+"), not the literal's own Type and Val"
+					break
+				}
+			}
+		}
+		c.Check(okBL, "literal.table", "BuildLiteral", c.P.Pos(bl.Pos()), "returns the literal node's own Type and Val", why)
 	}
 	// string literal boxed as NeutalString (static type of the returned value)
 	okBox := false
